@@ -643,6 +643,9 @@ func (a *nilAn) nonNil(v ssa.Value, at ssa.Instruction, depth int) bool {
 		}
 		return false
 	case *ssa.Lookup:
+		if keyFromSameMap(x) && elemAssumedNonNil(x.Type()) {
+			return true
+		}
 		return at != nil && ensuredMapEntry(x, at)
 	case *ssa.Extract:
 		switch t := x.Tuple.(type) {
@@ -814,6 +817,101 @@ func ensuredMapEntry(l *ssa.Lookup, at ssa.Instruction) bool {
 		})
 	})
 	return found
+}
+
+// keyFromSameMap recognises the sorted-keys idiom
+//
+//	keys := make([]string, 0, len(m)); for k := range m { keys = append(keys, k) }; sort.Strings(keys)
+//	for _, k := range keys { v := m[k] ... }
+//
+// the key of the lookup is an element of a slice that only ever receives keys of a range over the very same map:
+// the entry exists, the lookup yields a stored element (not the zero value of a missing key).
+func keyFromSameMap(l *ssa.Lookup) bool {
+	if l.CommaOk {
+		return false
+	}
+	ld, ok := l.Index.(*ssa.UnOp)
+	if !ok || ld.Op != token.MUL {
+		return false
+	}
+	ia, ok := ld.X.(*ssa.IndexAddr)
+	if !ok {
+		return false
+	}
+	sameMap := func(m ssa.Value) bool {
+		if m == l.X {
+			return true
+		}
+		pa, oka := core.Path(m)
+		pb, okb := core.Path(l.X)
+		return oka && okb && pa == pb
+	}
+	seen := map[ssa.Value]bool{}
+	nApp := 0
+	var fromKeys func(v ssa.Value, d int) bool
+	fromKeys = func(v ssa.Value, d int) bool {
+		if d > 12 || seen[v] {
+			return true
+		}
+		seen[v] = true
+		switch x := v.(type) {
+		case *ssa.MakeSlice:
+			return true
+		case *ssa.Const:
+			return x.Value == nil // nil slice
+		case *ssa.Phi:
+			for _, e := range x.Edges {
+				if !fromKeys(e, d+1) {
+					return false
+				}
+			}
+			return true
+		case *ssa.Call:
+			b, isB := x.Call.Value.(*ssa.Builtin)
+			if !isB || b.Name() != "append" || len(x.Call.Args) != 2 {
+				return false
+			}
+			if !fromKeys(x.Call.Args[0], d+1) {
+				return false
+			}
+			sl, isSl := x.Call.Args[1].(*ssa.Slice)
+			if !isSl {
+				return false
+			}
+			al, isAl := sl.X.(*ssa.Alloc)
+			if !isAl {
+				return false
+			}
+			for _, ref := range core.Refs(al) {
+				eia, isIA := ref.(*ssa.IndexAddr)
+				if !isIA {
+					continue
+				}
+				for _, r2 := range core.Refs(eia) {
+					st, isSt := r2.(*ssa.Store)
+					if !isSt || st.Addr != ssa.Value(eia) {
+						continue
+					}
+					ex, isEx := st.Val.(*ssa.Extract)
+					if !isEx || ex.Index != 1 {
+						return false
+					}
+					nx, isNx := ex.Tuple.(*ssa.Next)
+					if !isNx {
+						return false
+					}
+					rg, isRg := nx.Iter.(*ssa.Range)
+					if !isRg || !sameMap(rg.X) {
+						return false
+					}
+					nApp++
+				}
+			}
+			return true
+		}
+		return false
+	}
+	return fromKeys(ia.X, 0) && nApp > 0
 }
 
 // elemAssumedNonNil: elements of containers are assumed non-nil unless they are dynamic JSON values
